@@ -18,7 +18,8 @@ Definition gl_ok (dl : list (N * bytes)) (e : N * N * N * N * N * bytes) : Prop 
 Record InvV (v : view) : Prop := {
   i_rep : forall c x i b, aget c (v_ctxs v) = Some x -> c_repMsg x = Some (i, b) ->
           c_reqID x = i /\ c_sendMsg x = None /\ In (i, b) (v_dlog v);
-  i_reg : forall id c, aget id (v_byid v) = Some c ->
+  (* key 0 stands for "no request": no wire id ever looks it up in the repaired code, so it is unconstrained *)
+  i_reg : forall id c, aget id (v_byid v) = Some c -> id <> 0 ->
           exists x, aget c (v_ctxs v) = Some x /\ c_reqID x = id /\ c_repMsg x = None /\ c_sendMsg x = None;
   i_last : forall c x, aget c (v_ctxs v) = Some x -> c_reqID x = 0 \/ c_reqID x = c_last x;
   i_nodup : keys_nodup (v_byid v);
@@ -81,7 +82,7 @@ Proof.
   - intros c0 y i b Hy Hr. destruct (N.eq_dec c0 c) as [->|Hne].
     + rewrite aget_aset_same in Hy. inversion Hy; subst y. rewrite K1, K3. apply (H1 c x i b Hx). congruence.
     + rewrite aget_aset_other in Hy by exact Hne. eapply H1; eauto.
-  - intros id c0 Hid. destruct (H2 id c0 Hid) as (y & Hy & A & B & C).
+  - intros id c0 Hid Hnz. destruct (H2 id c0 Hid Hnz) as (y & Hy & A & B & C).
     destruct (N.eq_dec c0 c) as [->|Hne].
     + exists x'. rewrite aget_aset_same. rewrite Hx in Hy. inversion Hy; subst y. repeat split; congruence.
     + exists y. rewrite aget_aset_other by exact Hne. auto.
@@ -143,7 +144,7 @@ Lemma inv_update s s' c x x' :
   (c_reqID x' = 0 \/ c_reqID x' = c_last x') ->
   (* registrations: every entry of the new table either points elsewhere and was there before, or points to c
      and agrees with x' *)
-  (forall id c0, aget id (ctxByID s') = Some c0 ->
+  (forall id c0, aget id (ctxByID s') = Some c0 -> id <> 0 ->
      (c0 <> c /\ aget id (ctxByID s) = Some c0) \/
      (c0 = c /\ c_reqID x' = id /\ c_repMsg x' = None /\ c_sendMsg x' = None)) ->
   Inv s'.
@@ -153,8 +154,8 @@ Proof.
   - intros c0 y i b Hy Hr. rewrite Ec in Hy. destruct (N.eq_dec c0 c) as [->|Hne].
     + rewrite aget_aset_same in Hy. inversion Hy; subst y. apply Hrep. exact Hr.
     + rewrite aget_aset_other in Hy by exact Hne. destruct (H1 c0 y i b Hy Hr) as (A & B & C). auto.
-  - intros id c0 Hid. destruct (Hreg id c0 Hid) as [(Hne & Hold)|(-> & A & B & C)].
-    + destruct (H2 id c0 Hold) as (y & Hy & A & B & C). exists y. rewrite Ec, aget_aset_other by exact Hne. auto.
+  - intros id c0 Hid Hnz. destruct (Hreg id c0 Hid Hnz) as [(Hne & Hold)|(-> & A & B & C)].
+    + destruct (H2 id c0 Hold Hnz) as (y & Hy & A & B & C). exists y. rewrite Ec, aget_aset_other by exact Hne. auto.
     + exists x'. rewrite Ec, aget_aset_same. auto.
   - intros c0 y Hy. rewrite Ec in Hy. destruct (N.eq_dec c0 c) as [->|Hne].
     + rewrite aget_aset_same in Hy. inversion Hy; subst y. exact Hlast.
@@ -189,16 +190,15 @@ Proof.
   - cbn. rewrite M3, Cb. destruct (negb (c_reqID x =? 0)); [apply keys_nodup_adel|]; exact H4.
   - cbn. discriminate.
   - cbn. left. reflexivity.
-  - cbn. rewrite M3, Cb. intros id c0 Hid.
+  - cbn. rewrite M3, Cb. intros id c0 Hid Hnz.
     destruct (N.eqb_spec (c_reqID x) 0) as [E0|E0]; cbn [negb] in Hid.
     + destruct (N.eq_dec c0 c) as [->|Hne]; [|left; auto].
-      right. destruct (H2 id c Hid) as (y & Hy & A & B & C0). rewrite Ex in Hy. inversion Hy; subst y.
-      repeat split; auto. congruence.
+      exfalso. destruct (H2 id c Hid Hnz) as (y & Hy & A & B & C0). rewrite Ex in Hy. inversion Hy; subst y. congruence.
     + destruct (N.eq_dec id (c_reqID x)) as [->|Hid2].
       * rewrite aget_adel_same in Hid by exact H4. discriminate.
       * rewrite aget_adel_other in Hid by exact Hid2.
         destruct (N.eq_dec c0 c) as [->|Hne]; [|left; auto].
-        destruct (H2 id c Hid) as (y & Hy & A & B & C0). rewrite Ex in Hy. inversion Hy; subst y. congruence.
+        destruct (H2 id c Hid Hnz) as (y & Hy & A & B & C0). rewrite Ex in Hy. inversion Hy; subst y. congruence.
 Qed.
 
 (* ---- s.send() ---- *)
@@ -247,7 +247,7 @@ Proof.
     - intros i b Hr. rewrite R2 in Hr. destruct (H1 c x i b Hx Hr) as (A & B & C).
       rewrite R1, R3. cbn. rewrite D2, Cd. auto.
     - rewrite R1, R4. eapply H3; eauto.
-    - cbn. rewrite M2, Cb. intros id c0 Hid.
+    - cbn. rewrite M2, Cb. intros id c0 Hid Hnz.
       destruct (c_sendMsg x) as [[t m]|] eqn:Es.
       + destruct (N.eq_dec id (c_reqID x)) as [->|Hne].
         * rewrite aget_aset_same in Hid. inversion Hid; subst c0. right.
@@ -256,9 +256,9 @@ Proof.
           destruct (H1 c x i b Hx Er) as (_ & B & _). congruence.
         * rewrite aget_aset_other in Hid by exact Hne.
           destruct (N.eq_dec c0 c) as [->|Hc]; [|left; auto].
-          destruct (H2 id c Hid) as (y & Hy & A & B & C). rewrite Hx in Hy. inversion Hy; subst y. congruence.
+          destruct (H2 id c Hid Hnz) as (y & Hy & A & B & C). rewrite Hx in Hy. inversion Hy; subst y. congruence.
       + destruct (N.eq_dec c0 c) as [->|Hc]; [|left; auto].
-        right. destruct (H2 id c Hid) as (y & Hy & A & B & C). rewrite Hx in Hy. inversion Hy; subst y.
+        right. destruct (H2 id c Hid Hnz) as (y & Hy & A & B & C). rewrite Hx in Hy. inversion Hy; subst y.
         rewrite R1, R2, R3. auto. }
   destruct (pp_hold pp); (eapply inv_view; [|exact Hsf]); reflexivity.
 Qed.
@@ -312,8 +312,8 @@ Proof.
   - exact H4.
   - intros i b Hr. cbn in Hr. destruct (H1 c y i b Hy Hr) as (A & B & C). congruence.
   - cbn. left. reflexivity.
-  - intros id c0 Hid. cbn in Hid. destruct (N.eq_dec c0 c) as [->|Hne]; [|left; auto].
-    destruct (H2 id c Hid) as (z & Hz & A & B & C). rewrite Hy in Hz. inversion Hz; subst z. congruence.
+  - intros id c0 Hid Hnz. cbn in Hid. destruct (N.eq_dec c0 c) as [->|Hne]; [|left; auto].
+    destruct (H2 id c Hid Hnz) as (z & Hz & A & B & C). rewrite Hy in Hz. inversion Hz; subst z. congruence.
 Qed.
 
 Lemma inv_log_reply s e : Inv s -> gl_ok (dlog s) e -> Inv (log_reply s e).
@@ -343,8 +343,8 @@ Proof.
       - exact H4.
       - cbn. discriminate.
       - cbn. left. reflexivity.
-      - intros id0 c0 Hreg. cbn in Hreg. destruct (N.eq_dec c0 c) as [->|Hc]; [|left; auto].
-        destruct (H2 id0 c Hreg) as (z & Hz & A' & B' & C'). rewrite Ex in Hz. inversion Hz; subst z. congruence. }
+      - intros id0 c0 Hreg Hnz. cbn in Hreg. destruct (N.eq_dec c0 c) as [->|Hc]; [|left; auto].
+        destruct (H2 id0 c Hreg Hnz) as (z & Hz & A' & B' & C'). rewrite Ex in Hz. inversion Hz; subst z. congruence. }
     apply inv_emit. apply inv_log_reply; [exact HI'|].
     cbn. repeat split; try congruence.
     destruct (H3 c x Ex) as [E0|E0]; congruence.
@@ -416,7 +416,7 @@ Proof.
 Qed.
 
 (* ---- a reply arrives ---- *)
-Lemma inv_pipe_recv s p body : Inv s -> Inv (pipe_recv s p body).
+Lemma inv_pipe_recv s p body : Inv s -> Inv (pipe_recv true s p body).
 Proof.
   intro HI. unfold pipe_recv.
   destruct body as [|a [|b [|c' [|d payload]]]]; try exact HI.
@@ -424,15 +424,17 @@ Proof.
   assert (HI0 : Inv s0).
   { unfold s0. destruct (existsb (N.eqb p) (readyQ s)); [|exact HI]. eapply inv_view; [|exact HI]. reflexivity. }
   clearbody s0. clear HI s.
-  destruct (if 2 ^ 31 <=? be_dec [a; b; c'; d] then Some (be_dec [a; b; c'; d] - 2 ^ 31)
-            else if be_dec [a; b; c'; d] =? 0 then Some 0 else None) as [id|]; [|exact HI0].
+  destruct (wire_key true (be_dec [a; b; c'; d])) as [id|] eqn:Ewk; [|exact HI0].
+  assert (Hid0 : id <> 0).
+  { unfold wire_key in Ewk. destruct (N.ltb_spec (2 ^ 31) (be_dec [a; b; c'; d])); [inversion Ewk; lia|].
+    rewrite andb_false_r in Ewk. discriminate. }
   destruct (aget id (ctxByID s0)) as [c|] eqn:Eid; [|exact HI0].
   pose proof (inv_cancel_send s0 c HI0) as HI1.
   assert (Eid1 : aget id (ctxByID (cancel_send s0 c)) = Some c) by (rewrite cancel_send_byid; exact Eid).
   set (s1 := cancel_send s0 c) in *.
   destruct (aget c (ctxs s1)) as [x|] eqn:Ex; [|exact HI1].
   pose proof HI1 as [H1 H2 H3 H4 H5 H6]. cbn [view_of v_ctxs v_byid v_threads v_glog v_dlog] in *.
-  destruct (H2 id c Eid1) as (y & Hy & A & B & C). rewrite Ex in Hy. inversion Hy; subst y.
+  destruct (H2 id c Eid1 Hid0) as (y & Hy & A & B & C). rewrite Ex in Hy. inversion Hy; subst y.
   set (x' := with_timers (with_ctx x (c_reqID x) None (Some (id, payload)) (c_sendMsg x) (c_lastPipe x) (c_queued x))
                          None (c_sendTimer x) None).
   set (s2 := upd_byid s1 (adel id (ctxByID s1))).
@@ -449,10 +451,223 @@ Proof.
   - cbn. rewrite M3. apply keys_nodup_adel. exact H4.
   - cbn. intros i b0 Hr. inversion Hr; subst i b0. rewrite D3. repeat split; auto.
   - cbn. eapply H3; eauto.
-  - cbn. rewrite M3. intros id0 c0 Hreg.
+  - cbn. rewrite M3. intros id0 c0 Hreg Hnz.
     destruct (N.eq_dec id0 id) as [->|Hne].
     + rewrite aget_adel_same in Hreg by exact H4. discriminate.
     + rewrite aget_adel_other in Hreg by exact Hne.
       destruct (N.eq_dec c0 c) as [->|Hc]; [|left; auto].
-      destruct (H2 id0 c Hreg) as (z & Hz & A' & B' & C'). rewrite Ex in Hz. inversion Hz; subst z. congruence.
+      destruct (H2 id0 c Hreg Hnz) as (z & Hz & A' & B' & C'). rewrite Ex in Hz. inversion Hz; subst z. congruence.
+Qed.
+
+(* ---- RemovePipe ---- *)
+Lemma fold_left_inv {A} (f : rstate -> A -> rstate) :
+  (forall s a, Inv s -> Inv (f s a)) -> forall l s, Inv s -> Inv (fold_left f l s).
+Proof. intros Hf l. induction l as [|a l IH]; intros s HI; cbn [fold_left]; [exact HI|]. apply IH, Hf, HI. Qed.
+
+Lemma inv_set_pipe s x : Inv s -> Inv (set_pipe s x).
+Proof. apply inv_view. reflexivity. Qed.
+Lemma inv_upd_readyQ s q : Inv s -> Inv (upd_readyQ s q).
+Proof. apply inv_view. reflexivity. Qed.
+Lemma inv_upd_sendQ s q : Inv s -> Inv (upd_sendQ s q).
+Proof. apply inv_view. reflexivity. Qed.
+Lemma inv_upd_pipes s q : Inv s -> Inv (upd_pipes s q).
+Proof. apply inv_view. reflexivity. Qed.
+
+Lemma inv_remove_pipe s p : Inv s -> Inv (remove_pipe s p).
+Proof.
+  intro HI. unfold remove_pipe. destruct (get_pipe s p) as [pp|]; [|exact HI].
+  destruct (pp_closed pp); [exact HI|].
+  apply fold_left_inv.
+  - clear. intros s cx HI. cbn zeta. destruct (aget (fst cx) (ctxs s)) as [x|] eqn:Ex; [|exact HI].
+    destruct (c_fnp x && no_pipes s); [apply inv_cancel, HI|].
+    destruct (c_lastPipe x) as [q|]; [|exact HI]. destruct (c_reqMsg x); [|exact HI].
+    destruct (q =? p); [|exact HI].
+    assert (HI' : forall rm, Inv (set_ctx s (fst cx) (with_ctx x (c_reqID x) rm (c_repMsg x) (c_sendMsg x) None (c_queued x)))).
+    { intro rm. eapply inv_set_ctx_same; [exact Ex|reflexivity|exact HI]. }
+    destruct (c_resend x =? 0); [apply inv_cancel, HI'|apply inv_resend_message, inv_cancel_send, HI'].
+  - apply inv_set_misc. apply inv_upd_readyQ. apply inv_set_pipe. exact HI.
+Qed.
+
+(* ---- API calls ---- *)
+Lemma inv_add_thread s th : Inv s -> (forall t c id e, th = TRecv t c id e -> id <> 0) -> Inv (upd_threads s (threads s ++ [th])).
+Proof.
+  intros HI Hth. apply inv_threads; [exact HI|]. intros t c id e Hin.
+  apply in_app_or in Hin as [Hin|[Heq|[]]].
+  - destruct HI as [_ _ _ _ H5 _]. eapply H5; exact Hin.
+  - eapply Hth. exact Heq.
+Qed.
+
+(* a context record that takes part in nothing yet *)
+Lemma inv_new_ctx s c x' : Inv s -> aget c (ctxs s) = None ->
+  c_reqID x' = 0 -> c_repMsg x' = None -> c_sendMsg x' = None -> Inv (set_ctx s c x').
+Proof.
+  intros [H1 H2 H3 H4 H5 H6] Hn K1 K2 K3.
+  constructor; cbn [view_of set_ctx upd_ctxs v_ctxs v_byid v_threads v_glog v_dlog ctxs ctxByID threads glog dlog] in *; auto.
+  - intros c0 y i b Hy Hr. destruct (N.eq_dec c0 c) as [->|Hne].
+    + rewrite aget_aset_same in Hy. inversion Hy; subst y. congruence.
+    + rewrite aget_aset_other in Hy by exact Hne. eapply H1; eauto.
+  - intros id c0 Hid Hnz. destruct (H2 id c0 Hid Hnz) as (y & Hy & A & B & C).
+    exists y. rewrite aget_aset_other; [auto|]. intros ->. congruence.
+  - intros c0 y Hy. destruct (N.eq_dec c0 c) as [->|Hne].
+    + rewrite aget_aset_same in Hy. inversion Hy; subst y. left. exact K1.
+    + rewrite aget_aset_other in Hy by exact Hne. eapply H3; eauto.
+Qed.
+
+Lemma cancel_ctx s c x : aget c (ctxs s) = Some x ->
+  exists y, aget c (ctxs (cancel s c)) = Some y /\ c_reqID y = 0 /\ c_repMsg y = None /\
+            c_sendMsg y = c_sendMsg x /\ c_last y = c_last x.
+Proof.
+  intro Hx. unfold cancel. destruct (cancel_send_key s c x Hx) as (y0 & Hy0 & Ky0). rewrite Hy0.
+  unfold ckey in Ky0. inversion Ky0 as [[Q1 Q2 Q3 Q4]].
+  eexists. split.
+  - cbn [wake set_ctx upd_ctxs ctxs]. apply aget_aset_same.
+  - cbn. auto.
+Qed.
+
+Lemma inv_do_call s t k : Inv s -> Inv (do_call s t k).
+Proof.
+  intro HI. destruct k as [c hdr body|c|c o v arg|c|c|]; cbn [do_call].
+  - (* Send *)
+    set (s0 := set_misc s (sclosed s) (nsend s + 1) (now s) (ambig s)).
+    assert (HI0 : Inv s0) by (apply inv_set_misc, HI).
+    destruct (aget c (ctxs s0)) as [x|] eqn:Ex; [|apply inv_emit, HI0].
+    destruct (sclosed s0 || c_closed x); [apply inv_emit, HI0|].
+    destruct (c_fnp x && no_pipes s0); [apply inv_emit, HI0|].
+    pose proof (inv_cancel s0 c HI0) as HIc.
+    destruct (cancel_ctx s0 c x Ex) as (y0 & Hy0 & Y1 & Y2 & Y3 & Y4).
+    pose proof (inv_cancel_send _ c HIc) as HI1.
+    destruct (cancel_send_key _ c y0 Hy0) as (y & Hy & Ky).
+    unfold ckey in Ky. inversion Ky as [[Q1 Q2 Q3 Q4]].
+    set (s1 := cancel_send (cancel s0 c) c) in *. rewrite Hy.
+    set (id := nsend s0).
+    set (y' := with_last (with_ctx y id (c_reqMsg y) (c_repMsg y) (Some (t, (id, body))) (c_lastPipe y) true) id).
+    pose proof HI1 as [H1 H2 H3 H4 H5 H6]. cbn [view_of v_ctxs v_byid v_threads v_glog v_dlog] in *.
+    assert (HI2 : Inv (upd_sendQ (set_ctx s1 c y') (sendQ (set_ctx s1 c y') ++ [c]))).
+    { apply inv_upd_sendQ. apply (inv_update s1 (set_ctx s1 c y') c y y' HI1 Hy).
+      - reflexivity.
+      - reflexivity.
+      - reflexivity.
+      - auto.
+      - exact H4.
+      - cbn. intros i b Hr. congruence.
+      - cbn. right. reflexivity.
+      - intros id0 c0 Hreg Hnz. cbn in Hreg. destruct (N.eq_dec c0 c) as [->|Hc]; [|left; auto].
+        destruct (H2 id0 c Hreg Hnz) as (z & Hz & A & B & C). rewrite Hy in Hz. inversion Hz; subst z. congruence. }
+    destruct (c_best y).
+    + apply inv_emit, inv_send_all, HI2.
+    + set (s2 := if 0 <? c_sendExp y then _ else _).
+      assert (HIs2 : Inv s2).
+      { unfold s2. destruct (0 <? c_sendExp y); [|exact HI2].
+        destruct (arm _ c (TkSend t) (c_sendExp y)) as [s3 i] eqn:Ea.
+        assert (HI3 : Inv s3).
+        { replace s3 with (fst (arm (upd_sendQ (set_ctx s1 c y') (sendQ (set_ctx s1 c y') ++ [c])) c (TkSend t) (c_sendExp y))) by (rewrite Ea; reflexivity).
+          eapply inv_view; [apply arm_view|exact HI2]. }
+        destruct (aget c (ctxs s3)) as [z|] eqn:Ez; [|exact HI3].
+        eapply inv_set_ctx_same; [exact Ez|reflexivity|exact HI3]. }
+      apply inv_wake. apply inv_add_thread; [apply inv_send_all, HIs2|]. intros; discriminate.
+  - (* Recv *)
+    destruct (aget c (ctxs s)) as [x|] eqn:Ex; [|apply inv_emit, HI].
+    destruct (sclosed s || c_closed x); [apply inv_emit, HI|].
+    destruct (c_fnp x && no_pipes s); [apply inv_emit, HI|].
+    destruct (c_recvWait x || (c_reqID x =? 0)) eqn:Eg; [apply inv_emit, HI|].
+    apply orb_false_iff in Eg as [_ Eg]. apply N.eqb_neq in Eg.
+    set (s1 := set_ctx s c (with_flags x (c_closed x) true)).
+    assert (HI1 : Inv s1) by (eapply inv_set_ctx_same; [exact Ex|reflexivity|exact HI]).
+    set (s2 := if 0 <? c_recvExp x then _ else s1).
+    assert (HIs2 : Inv s2).
+    { unfold s2. destruct (0 <? c_recvExp x); [|exact HI1].
+      destruct (arm s1 c (TkRecv t (c_reqID x)) (c_recvExp x)) as [s3 i] eqn:Ea.
+      assert (HI3 : Inv s3).
+      { replace s3 with (fst (arm s1 c (TkRecv t (c_reqID x)) (c_recvExp x))) by (rewrite Ea; reflexivity).
+        eapply inv_view; [apply arm_view|exact HI1]. }
+      destruct (aget c (ctxs s3)) as [z|] eqn:Ez; [|exact HI3].
+      eapply inv_set_ctx_same; [exact Ez|reflexivity|exact HI3]. }
+    apply inv_wake. apply inv_add_thread; [exact HIs2|]. intros t0 c0 id0 e0 Heq. inversion Heq; subst. exact Eg.
+  - (* SetOption *)
+    destruct (aget c (ctxs s)) as [x|] eqn:Ex; [|apply inv_emit, HI].
+    destruct o; try (apply inv_emit, HI); apply inv_emit; (eapply inv_set_ctx_same; [exact Ex|reflexivity|exact HI]).
+  - (* OpenContext *)
+    destruct (sclosed s); [apply inv_emit, HI|].
+    destruct (aget c (ctxs s)) as [x0|] eqn:Ec; [apply inv_set_misc, HI|].
+    destruct (aget 0 (ctxs s)) as [d|]; [|exact HI].
+    apply inv_emit. apply inv_new_ctx; [exact HI|exact Ec|reflexivity|reflexivity|reflexivity].
+  - (* context Close *)
+    destruct (aget c (ctxs s)) as [x|] eqn:Ex; [|apply inv_emit, HI].
+    destruct (c_closed x); [apply inv_emit, HI|].
+    apply inv_emit, inv_cancel. eapply inv_set_ctx_same; [exact Ex|reflexivity|exact HI].
+  - (* socket Close *)
+    destruct (sclosed s); [apply inv_emit, HI|].
+    apply inv_emit. apply fold_left_inv; [|apply inv_set_misc, HI].
+    clear. intros s cx HI. destruct (aget (fst cx) (ctxs s)) as [x|] eqn:Ex; [|exact HI].
+    destruct (c_closed x); [exact HI|].
+    apply inv_cancel. eapply inv_set_ctx_same; [exact Ex|reflexivity|exact HI].
+Qed.
+
+(* ---- one step, every step ---- *)
+Lemma inv_step_raw s st : Inv s -> Inv (step_raw true s st).
+Proof.
+  intro HI. destruct st as [t k|p|p|p body|p h|p ok|until|tm]; cbn [step_raw].
+  - apply inv_do_call, HI.
+  - destruct (sclosed s); [exact HI|]. apply inv_send_all, inv_upd_readyQ, inv_upd_pipes, HI.
+  - apply inv_remove_pipe, HI.
+  - destruct (get_pipe s p) as [pp|]; [|apply inv_emit, HI].
+    destruct (pp_closed pp); [apply inv_emit, HI|apply inv_pipe_recv, HI].
+  - destruct (get_pipe s p) as [pp|]; [apply inv_set_pipe, HI|exact HI].
+  - destruct (get_pipe s p) as [pp|]; [|exact HI]. destruct (pp_inflight pp); [|exact HI].
+    destruct ok.
+    + destruct (sclosed _ || pp_closed pp); [apply inv_set_pipe, HI|apply inv_send_all, inv_upd_readyQ, inv_set_pipe, HI].
+    + apply inv_remove_pipe, inv_set_pipe, HI.
+  - apply inv_set_misc. apply inv_fire_due. apply inv_set_misc, HI.
+  - apply inv_set_misc, HI.
+Qed.
+
+Lemma inv_clear_out s : Inv s -> Inv (clear_out s).
+Proof. apply inv_view. reflexivity. Qed.
+
+Lemma inv_step s st : Inv s -> Inv (fst (step true s st)).
+Proof. intro HI. unfold step. cbn [fst]. apply inv_settle, inv_step_raw, inv_clear_out, HI. Qed.
+
+Lemma inv_init : Inv init.
+Proof.
+  constructor; cbn.
+  - intros c x i b H. destruct (c =? 0); inversion H; subst; cbn; discriminate.
+  - intros id c H. discriminate.
+  - intros c x H. destruct (c =? 0); inversion H; subst; cbn; auto.
+  - exact I.
+  - intros t c id e [].
+  - constructor.
+Qed.
+
+Lemma inv_run : forall h s, Inv s -> Inv (fst (run_model (req_model true) s h)).
+Proof.
+  induction h as [|st h IH]; intros s HI; [exact HI|].
+  cbn [run_model]. cbn [m_step req_model].
+  destruct (step true s st) as [s' o] eqn:Es.
+  specialize (IH s' ltac:(replace s' with (fst (step true s st)) by (rewrite Es; reflexivity); apply inv_step, HI)).
+  destruct (run_model (req_model true) s' h) as [s'' os]. exact IH.
+Qed.
+
+(* For EVERY history of stimuli (any number of contexts, pipes, calls; replies with arbitrary bytes on arbitrary
+   pipes in arbitrary order, duplicated, stale, foreign; pipe losses; timers; closes): every reply the repaired REQ
+   ever handed out to a Recv call
+     - had been matched under exactly the id that call was waiting for (i = id),
+     - which was the id of the context's most recent accepted Send at that moment (id = lst), not "no request",
+     - and its payload is that of a delivery matched under that id. *)
+Theorem req_reply_current_all_histories : forall h,
+  let s := fst (run_model (req_model true) init h) in
+  Forall (fun e => let '(t, c, i, id, lst, b) := e in i = id /\ id = lst /\ id <> 0 /\ In (i, b) (dlog s)) (glog s).
+Proof.
+  intros h s. pose proof (inv_run h init inv_init) as [_ _ _ _ _ H6]. exact H6.
+Qed.
+
+(* the log entry and the observation are produced together: a Recv call returns a message iff it is logged *)
+Lemma recv_finish_logs s t c id e b :
+  In (ORet t (RMsg [] b)) (out (recv_finish true s t c id e)) -> ~ In (ORet t (RMsg [] b)) (out s) ->
+  exists i lst, glog (recv_finish true s t c id e) = (t, c, i, id, lst, b) :: glog s.
+Proof.
+  unfold recv_finish. destruct (aget c (ctxs s)) as [x|] eqn:Ex; [|intros H Hn; contradiction].
+  destruct (N.eqb_spec (c_reqID x) id) as [Heq|Hne]; cbn [andb negb].
+  - destruct (c_repMsg x) as [[i m]|] eqn:Er; cbn; intros [H|H] Hn; try contradiction; try discriminate.
+    inversion H; subst. eauto.
+  - cbn. intros [H|H] Hn; [discriminate|contradiction].
 Qed.
